@@ -451,6 +451,7 @@ def probe_case(draw: Any) -> dict[str, Any]:
 
 LAYERS = ("block", "local", "arg", "matter", "tglobal", "eglobal", "builtin", "counter")
 BUILTIN_RE = {"now": re.compile(r"\d{4}-\d\d-\d\d \d\d:\d\d:\d\d(\.\d+)?"), "today": re.compile(r"\d{4}-\d\d-\d\d")}
+NIL_LAYERS = ("block", "local", "arg", "matter", "tglobal", "eglobal")
 LAYER_VALUE = {"block": "block", "local": "local", "arg": "arg", "matter": "matter", "tglobal": "tglobal",
                "eglobal": "eglobal", "counter": "1"}
 
@@ -459,7 +460,9 @@ def prec_source(case: dict[str, Any]) -> tuple[str, dict[str, str]]:
     name = case["name"]
     layers = case["layers"]
     look = "<<{{ " + name + " }}>>"
-    assign = "{% assign " + name + " = 'local' %}" if "local" in layers else ""
+    nil = case.get("nil_layer")  # this layer binds the name to nil: still a binding, it shadows the outer ones
+    lit = {ly: ("nil" if ly == nil else "'" + ly + "'") for ly in ("local", "block")}
+    assign = "{% assign " + name + " = " + lit["local"] + " %}" if "local" in layers else ""
     head = "{% increment " + name + " %}|" if "counter" in layers else ""
     templates: dict[str, str] = {}
     if "block" not in layers:
@@ -470,13 +473,13 @@ def prec_source(case: dict[str, Any]) -> tuple[str, dict[str, str]]:
         head += assign
     kind = case["block"]
     if kind == "with":
-        src = head + "{% with " + name + ": 'block' %}" + body + "{% endwith %}"
+        src = head + "{% with " + name + ": " + lit["block"] + " %}" + body + "{% endwith %}"
     elif kind in ("for", "tablerow"):
         src = (head + "{% assign blk__ = 'block' | split: ',' %}{% " + kind + " " + name + " in blk__ %}" + body
                + "{% end" + kind + " %}")
     else:  # include: keyword arguments of `include` are block scoped
         templates["p"] = body
-        src = head + "{% include 'p', " + name + ": 'block' %}"
+        src = head + "{% include 'p', " + name + ": " + lit["block"] + " %}"
     return src, templates
 
 
@@ -536,6 +539,12 @@ class C10(Prop):
                                 for mode in ("sync", "async"):
                                     yield {"kind": "prec", "name": name, "layers": layers, "block": kind,
                                            "assign_inside": inside, "route": route, "bare": bare, "mode": mode}
+                                    # the same subset with one layer binding nil: it still hides what is below it
+                                    for nl in layers:
+                                        if nl in NIL_LAYERS and kind in (None, "with", "include") and len(layers) >= 2:
+                                            yield {"kind": "prec", "name": name, "layers": layers, "block": kind,
+                                                   "assign_inside": inside, "route": route, "bare": bare,
+                                                   "mode": mode, "nil_layer": nl}
 
     def enumerated_is_exhaustive(self, tier: str) -> bool:
         return True  # every one of the 256 subsets is rendered (for x: built-in bit clear; now/today: set)
@@ -677,7 +686,7 @@ class C10(Prop):
             if not case["bare"]:
                 m["pad_" + layer] = layer
             if layer in layers:
-                m[name] = LAYER_VALUE[layer]
+                m[name] = None if layer == case.get("nil_layer") else LAYER_VALUE[layer]
             return m or None
 
         eglobal, tglobal, matter, arg = mapping("eglobal"), mapping("tglobal"), mapping("matter"), mapping("arg")
@@ -702,12 +711,14 @@ class C10(Prop):
         got = re.findall(r"<<(.*?)>>", out, flags=re.S)
         res.nontrivial = len(layers) >= 2
         res.labels.append("top:" + str(want_layer))
+        if case.get("nil_layer"):
+            res.labels.append("nil-binding:" + case["nil_layer"])
         res.labels.append(f"prec:{case['mode']}:{case['route']}")
         if len(got) != 1:
             res.fail("precedence", "precedence-lookup-count", f"{len(got)} lookups rendered; out={out!r}; src={src!r}")
             return res
         val = got[0]
-        if want_layer is None:
+        if want_layer is None or want_layer == case.get("nil_layer"):
             ok = val == ""
         elif want_layer == "builtin":
             ok = bool(BUILTIN_RE[name].fullmatch(val))
@@ -721,7 +732,8 @@ class C10(Prop):
             else:
                 got_layer = next((ly for ly, v in LAYER_VALUE.items() if v == val), "other")
             res.fail(
-                "precedence", f"precedence:{want_layer}-lost-to:{got_layer}",
+                "precedence",
+                f"precedence:{'nil-' if want_layer == case.get('nil_layer') else ''}{want_layer}-lost-to:{got_layer}",
                 f"name {name!r} bound in {layers}: rendered {val!r}, documented order gives layer {want_layer!r}; "
                 f"src={src!r} mode={case['mode']} route={case['route']} bare={case['bare']}",
             )
